@@ -615,6 +615,131 @@ func runC11(c *Ctx) {
 		}
 	}
 
+	// ---------------------------------------------------------------- C11.9
+	c.Rule("C11.9", "the REST route target (nil for methods without an HTTP rule) is dereferenced only where it is known to exist", 10)
+	rtF := p.MustField("operation", "restTarget")
+	justifiedType := func(fn *ssa.Function) bool {
+		recv := fn.Signature.Recv()
+		if recv == nil {
+			return false
+		}
+		n := typeName(recv.Type())
+		return n == "restClientProtocol" || n == "restServerProtocol"
+	}
+	derefs := func(fn *ssa.Function) []ssa.Instruction {
+		var out []ssa.Instruction
+		ForEachInstr(fn, func(in ssa.Instruction) {
+			fa, ok := in.(*ssa.FieldAddr)
+			if !ok {
+				return
+			}
+			if LoadedField(fa.X) == rtF {
+				out = append(out, in)
+			}
+		})
+		return out
+	}
+	nonNilAt := func(in ssa.Instruction) bool {
+		for _, f := range FactsAt(in.Block()) {
+			if cmp, ok := f.AsCmp(); ok && cmp.Op == token.NEQ && IsNilConst(cmp.Y) && LoadedField(cmp.X) == rtF {
+				return true
+			}
+		}
+		return false
+	}
+	rtGuarded := map[*ssa.Function]bool{}
+	for iter := 0; iter < 6; iter++ {
+		for _, fn := range p.Funcs {
+			if rtGuarded[fn] || len(derefs(fn)) == 0 || fn.Parent() != nil {
+				continue
+			}
+			callers := p.Callers(fn)
+			if len(callers) == 0 {
+				continue
+			}
+			all := true
+			for _, e := range callers {
+				if !p.inScope(e.Caller) {
+					continue
+				}
+				if !(justifiedType(e.Caller) || rtGuarded[e.Caller] || nonNilAt(e.Site)) {
+					all = false
+				}
+			}
+			if all {
+				rtGuarded[fn] = true
+			}
+		}
+	}
+	for _, fn := range p.Funcs {
+		if !p.inScope(fn) {
+			continue
+		}
+		for _, in := range derefs(fn) {
+			c.CountSite()
+			how := ""
+			switch {
+			case nonNilAt(in):
+				how = "dominating non-nil test"
+			case justifiedType(fn):
+				how = "method of the REST protocol handlers: the target exists by construction (REST clients are routed through a matched target, REST targets are refused with not-found when the method has no rule)"
+			case rtGuarded[fn]:
+				how = "every caller is a REST protocol handler method or tests the target first"
+			}
+			c.Check(how != "", "C11.9", FuncName(fn), "restTarget-deref", in.Pos(), how,
+				"operation.restTarget is dereferenced in code that runs for every protocol pairing without a non-nil test: for a method without a google.api.http rule this is a nil-pointer panic")
+		}
+	}
+	// the two lemmas behind the REST-handler justification
+	{
+		valFn := p.MustFunc("(*operation).validate")
+		nf := p.Global("errNotFound")
+		okLemma := false
+		ForEachInstr(valFn, func(in ssa.Instruction) {
+			ret, ok := in.(*ssa.Return)
+			if !ok || nf == nil || !originIsGlobal(ret.Results[0], nf) {
+				return
+			}
+			for _, f := range FactsAt(ret.Block()) {
+				if cmp, ok := f.AsCmp(); ok && cmp.Op == token.EQL && IsNilConst(cmp.Y) && LoadedField(cmp.X) == rtF {
+					okLemma = true
+				}
+			}
+		})
+		c.Check(okLemma, "C11.9", FuncName(valFn), "rest-target-without-rule-refused", valFn.Pos(),
+			"validation answers not-found when the chosen target is REST and the method has no route target", "validation no longer refuses a REST target for a method without a route target: the REST server handler would dereference nil")
+	}
+
+	// ---------------------------------------------------------------- C11.10
+	c.Rule("C11.10", "a declared content length is non-negative or the -1 sentinel", 1)
+	ecl := p.MustFunc("httpExtractContentLength")
+	ForEachInstr(ecl, func(in ssa.Instruction) {
+		ret, ok := in.(*ssa.Return)
+		if !ok || len(ret.Results) != 2 || !IsNilConst(ret.Results[1]) {
+			return
+		}
+		v := ret.Results[0]
+		good := false
+		if k, isK := ConstInt(v); isK && k >= -1 {
+			good = true
+		}
+		iv := IntervalOf(v, ret.Block())
+		if iv.Lo >= -1 {
+			good = true
+		}
+		// values obtained through an Extract of a parser call: look at facts on the extract itself
+		for _, f := range FactsAt(ret.Block()) {
+			if cmp, ok := f.AsCmp(); ok && sameValue(cmp.X, v) {
+				if k, isK := ConstInt(cmp.Y); isK && (cmp.Op == token.GEQ && k >= -1 || cmp.Op == token.GTR && k >= -2) {
+					good = true
+				}
+			}
+		}
+		c.Check(good, "C11.10", FuncName(ecl), "non-negative-or-sentinel", ret.Pos(),
+			"every successful return is >= -1 (derived interval / dominating comparison)",
+			"the declared Content-Length can be returned negative (below the -1 sentinel): the writers use it as a slice bound and byte counter - slice bounds out of range")
+	})
+
 	// ---------------------------------------------------------------- C11.3
 	c.Rule("C11.3", "no explicit crash constructs at request time; recursion only where listed", 3)
 	nPanic, nAssert, nGo := 0, 0, 0
